@@ -62,7 +62,9 @@ QueryVerdict(t, q, ucpts) ==
                          /\ t.asym[a.asym].z = q.rows[i].z
                          /\ (q.rows[i].asym = 0 \/ q.rows[i].asym = a.asym)
                          /\ (q.rows[i].d2 = -1 \/ q.rows[i].d2 = MinDist2N(t.gram, centre, a.p))
-                         /\ (~q.rows[i].hascell \/ q.rows[i].cell = a.cell))
+                         \* the cell an atom is listed under: the atom lies in that cell's box, faces included (a unit-cell
+                         \* coordinate a hair below 1 is the site 0 of the next cell, and either description is right)
+                         /\ (~q.rows[i].hascell \/ \A c \in 1..3 : q.rows[i].p[c] - t.n * q.rows[i].cell[c] \in 0..t.n))
      THEN "REJECT Attributes" \o tag ELSE "ok"
 
 (* ---- molecule-level queries ------------------------------------------------ *)
